@@ -19,7 +19,7 @@ use std::time::Duration;
 pub const URI_A: &str = "file:///w/a.st";
 pub const URI_B: &str = "file:///w/b.st";
 
-pub const TEXTS: [(&str, &str); 6] = [
+pub const TEXTS: [(&str, &str); 8] = [
     ("V", "TYPE Level : (Low, High) := Low; END_TYPE\nFUNCTION_BLOCK FbV\nVAR\n  a : INT;\nEND_VAR\n  a := 1;\nEND_FUNCTION_BLOCK\n"),
     ("X", "FUNCTION_BLOCK FbX\nVAR\n  a : INT;\nEND_VAR\n  (* \u{e9} *) a := ?;\n  a := a ! 1;\nEND_FUNCTION_BLOCK\n"),
     ("S", "FUNCTION_BLOCK FbS\nVAR\n  a : INT;\nEND_VAR\n\n  a := ;\nEND_FUNCTION_BLOCK\n"),
@@ -27,6 +27,10 @@ pub const TEXTS: [(&str, &str); 6] = [
     ("D", "FUNCTION_BLOCK FbD\nVAR\n  lv : Level := Low;\nEND_VAR\nEND_FUNCTION_BLOCK\n"),
     // the same program as M in another layout and with CRLF line ends (same tree, every offset different)
     ("L", "(* moved *)\r\n\r\nFUNCTION_BLOCK FbM VAR a : INT; END_VAR\r\n\r\n      a := 1;\r\n   undeclared   :=   2;\r\nEND_FUNCTION_BLOCK\r\n"),
+    // S again with white space in front of it (every line number differs) and S with white space after it (nothing but the
+    // text itself differs): what a server that compares texts "modulo white space at the ends" would take for S
+    ("W", "\n\n  FUNCTION_BLOCK FbS\nVAR\n  a : INT;\nEND_VAR\n\n  a := ;\nEND_FUNCTION_BLOCK\n"),
+    ("T", "FUNCTION_BLOCK FbS\nVAR\n  a : INT;\nEND_VAR\n\n  a := ;\nEND_FUNCTION_BLOCK\n  \n\n"),
 ];
 
 fn text_of(k: usize) -> &'static str {
